@@ -576,16 +576,32 @@ def run(ctx):
 
 def thread_local_buffers(ctx, rule):
     """a byte buffer that outlives the call (kept in a thread-local) is emptied before the call puts anything into it"""
-    from ..core import receiver_root as _rr, value_path as _vp
-    P = ctx.P
     ctx.rule(rule, 'the codec works in buffers of the call; where a byte buffer is kept in a thread-local between calls, every call empties it before it writes into it - emptying it only on the successful way out '
              'leaves the bytes of a failed call in front of the next result. A rule about what must not be there', floor=0)
+    n = 0
+    for q, name, DB, sites, bad in thread_local_buffer_sites(ctx):
+        n += 1
+        if bad:
+            ctx.bad(rule, '%s:thread-local-buffer' % name, '%s writes into a byte buffer kept in a thread-local (%s) that has not been emptied first on every way there: '
+                    'what a call that failed half-way left in it comes out in front of, or inside, the next result' % (name, bad[0][1].rsplit('::', 1)[-1]), ctx.where(DB, bad[0][0]),
+                    key='SHAPE:%s:thread-local-buffer-not-emptied-first' % q.split('::{')[0])
+        else:
+            ctx.ok(rule, '%s:thread-local-buffer' % name, 'emptied before anything is written into it', ctx.where(DB, sites[0][0]))
+    if n == 0:
+        ctx.ok(rule, 'none', 'no byte buffer is kept in a thread-local')
+
+
+def thread_local_buffer_sites(ctx, only_parent=None):
+    """(body, name, B, append sites, those not dominated by an emptying) for every byte buffer rooted in a thread-local"""
+    from ..core import receiver_root as _rr, value_path as _vp
+    P = ctx.P
     BUF = ('BytesMut', 'Vec<u8>')
     EMPTY = ('::clear', '::split', '::split_to', '::truncate', '::split_off')
     NEUTRAL = ('::reserve', '::reserve_exact', '::try_reserve', '::try_reserve_exact', '::len', '::capacity', '::is_empty', '::as_slice', '::deref', '::deref_mut', '::borrow_mut', '::borrow', '::as_ref', '::as_mut',
                '::to_vec', '::freeze', '::set', '::take', '::replace', '::drop', '::drop_in_place')
-    n = 0
     for q in sorted(ctx.F.bodies):
+        if only_parent is not None and q.split('::{')[0] != only_parent:
+            continue
         if not q.startswith(('erltf::', 'erltf_serde::', 'edp_elixir_terms::', 'edp_client::')) or '::tests::' in q or ctx.F.bodies[q]['kind'] not in ('Fn', 'AssocFn', 'Closure'):
             continue
         DB = P.B(q)
@@ -635,14 +651,6 @@ def thread_local_buffers(ctx, rule):
                     appends.setdefault(r, []).append((bb, names[0] if names else '?'))
         name = q.split('::{')[0].rsplit('::', 1)[1]
         for r, sites in sorted(appends.items(), key=str):
-            n += 1
             E_ = [e for k_, v_ in empties.items() for e in v_ if k_ == r or 'tl' in (k_[1], r[1])]
             bad = [(bb, nm) for bb, nm in sites if not any(e != bb and DB.block_dominates(e, bb) for e in E_)]
-            if bad:
-                ctx.bad(rule, '%s:thread-local-buffer' % name, '%s writes into a byte buffer kept in a thread-local (%s) that has not been emptied first on every way there: '
-                        'what a call that failed half-way left in it comes out in front of, or inside, the next result' % (name, bad[0][1].rsplit('::', 1)[-1]), ctx.where(DB, bad[0][0]),
-                        key='SHAPE:%s:thread-local-buffer-not-emptied-first' % q.split('::{')[0])
-            else:
-                ctx.ok(rule, '%s:thread-local-buffer' % name, 'emptied before anything is written into it', ctx.where(DB, sites[0][0]))
-    if n == 0:
-        ctx.ok(rule, 'none', 'no byte buffer is kept in a thread-local')
+            yield q, name, DB, sites, bad
